@@ -8,8 +8,9 @@
   `np.argsort(current_data)` returns is an explicit argument, because numba's argsort is
   unstable on ties);
 * `degreePrune`    — `degree_prune_internal` for one CSR row;
-* `searchGraph`    — `NNDescent._init_search_graph` for `diversify_prob = 1`, on rows of
-  association lists `(column, length)`, exactly in the order the code executes it.
+* `searchGraphD`   — `NNDescent._init_search_graph` on rows of association lists
+  `(column, length)`, exactly in the order the code executes it, for given outcomes of the
+  generator tests of both passes; `searchGraph` is its instance for `diversify_prob = 1`.
 
 The dense and the sparse kernel of each form are the *same* loop; they differ only in how the
 distance between two neighbours is evaluated (`dist(data[a], data[b])` on dense rows versus
@@ -153,7 +154,15 @@ def degreePrune (zero : P) (m : Nat) (row : List (Ent P)) : List (Ent P) :=
     | none => row
   else row
 
-/-! ## `_init_search_graph` for `diversify_prob = 1` -/
+/-! ## `_init_search_graph`
+
+Every pipeline function exists in two forms: the `…D` form takes the outcomes of the generator
+tests as arguments — `draw : Nat → Bool` for one row (as in the kernels above), `draw1 draw2 :
+Nat → Nat → Bool` = `(row, counter) ↦ outcome` for the forward and for the second pass of the
+whole graph — and the historical name is its instance for `diversify_prob = 1` (`fun _ => true`).
+In the code row `i` of *either* pass consults the private state `rng_state + i` (a fresh array,
+`self.rng_state` itself is never advanced), so on the real code `draw1 i` and `draw2 i` are the
+same stream restarted; the model does not assume it. -/
 
 /-- `x == 0` in floating point (`0.0` and `-0.0`), the test of `eliminate_zeros` -/
 def isZero (zero x : P) : Bool := decide (x ≤ zero) && decide (zero ≤ x)
@@ -169,23 +178,35 @@ the `<= 0 → EPS` protection, COO→CSR, `data[indices == -1] = 0`, `eliminate_
 `tocsr()` keeps every row in *list order* (ascending length, not column order) and adds nothing:
 the COO matrix was created empty, which sets its `has_canonical_format` flag, and the code then
 assigns `row`/`col`/`data` directly, so `tocsr()` skips `sum_duplicates()` (observed with scipy
-1.18: `has_sorted_indices` is `False` until the explicit `sort_indices()` before `maximum`). -/
-def forwardRow (zero eps top : P) (dist : Int → Int → P) (row : List (Ent P)) : List (Ent P) :=
-  let div := diversifyRow top eps dist (fun _ => true) row
+1.18: `has_sorted_indices` is `False` until the explicit `sort_indices()` before `maximum`).
+`draw` = the generator tests of this row. -/
+def forwardRowD (zero eps top : P) (dist : Int → Int → P) (draw : Nat → Bool) (row : List (Ent P)) :
+    List (Ent P) :=
+  let div := diversifyRow top eps dist draw row
   let prot := div.map (fun e => (e.1, protect zero eps e.2))
   elimZeros zero (prot.map (fun e => if e.1 = -1 then (e.1, zero) else e))
+
+/-- `forwardRowD` for `diversify_prob = 1` -/
+def forwardRow (zero eps top : P) (dist : Int → Int → P) (row : List (Ent P)) : List (Ent P) :=
+  forwardRowD zero eps top dist (fun _ => true) row
 
 /-- The pass the code calls "reverse diversification": `diversify_csr` over the CSC *view* of the
 forward graph, i.e. over the same forward rows (stored in list order), visited in `argsort` order
 of their protected lengths (for a tie-free row: the order of the first pass);
 non-retained entries are overwritten by `0` and removed by `eliminate_zeros()`.
 (The kernel's write-back loop runs over `order`; positions outside `order` keep `retained = 1`,
-so testing the flag of every storage position is the same.) -/
+so testing the flag of every storage position is the same.)  `draw` = the generator tests of this
+row in this pass. -/
+def secondRowD (zero eps : P) (dist : Int → Int → P) (argsort : List P → List Nat)
+    (draw : Nat → Bool) (row : List (Ent P)) : List (Ent P) :=
+  let order := argsort (row.map (·.2))
+  let keep := diversifyCsr eps dist draw (nbrOf row) (lenOf eps row) order
+  elimZeros zero (row.zipIdx.map (fun ej => if keep ej.2 then ej.1 else (ej.1.1, zero)))
+
+/-- `secondRowD` for `diversify_prob = 1` -/
 def secondRow (zero eps : P) (dist : Int → Int → P) (argsort : List P → List Nat)
     (row : List (Ent P)) : List (Ent P) :=
-  let order := argsort (row.map (·.2))
-  let keep := diversifyCsr eps dist (fun _ => true) (nbrOf row) (lenOf eps row) order
-  elimZeros zero (row.zipIdx.map (fun ej => if keep ej.2 then ej.1 else (ej.1.1, zero)))
+  secondRowD zero eps dist argsort (fun _ => true) row
 
 /-- a graph as the array of its rows `[(column, length)]`; rows beyond the array are empty -/
 abbrev Graph (P : Type) := Array (List (Ent P))
@@ -217,39 +238,67 @@ def unionRow (zero : P) (n : Nat) (a b : List (Ent P)) : List (Ent P) :=
 def dropDiag (u : Nat) (row : List (Ent P)) : List (Ent P) := row.filter (fun e => e.1 ≠ (u : Int))
 
 /-! the stages of `_init_search_graph`, in execution order; `N` is the neighbour graph
-(`N[u]` = stored row of point `u`) -/
+(`N[u]` = stored row of point `u`); `draw1 u c` / `draw2 u c` = outcome of the `c`-th generator
+test of row `u` in the forward / the second pass -/
 
 /-- forward diversification, protection, first CSR form -/
-def fwdRows (zero eps top : P) (dist : Int → Int → P) (N : List (List (Ent P))) : Graph P :=
-  (Array.range N.length).map (fun u => forwardRow zero eps top dist (N.getD u []))
+def fwdRowsD (zero eps top : P) (dist : Int → Int → P) (N : List (List (Ent P)))
+    (draw1 : Nat → Nat → Bool) : Graph P :=
+  (Array.range N.length).map (fun u => forwardRowD zero eps top dist (draw1 u) (N.getD u []))
 
 /-- after the second ("reverse") pass: shared by `_search_graph` and `reverse_graph` -/
-def sndRows (zero eps top : P) (dist : Int → Int → P) (argsort : List P → List Nat)
-    (N : List (List (Ent P))) : Graph P :=
-  let f := fwdRows zero eps top dist N
-  (Array.range N.length).map (fun u => secondRow zero eps dist argsort (f.row u))
+def sndRowsD (zero eps top : P) (dist : Int → Int → P) (argsort : List P → List Nat)
+    (N : List (List (Ent P))) (draw1 draw2 : Nat → Nat → Bool) : Graph P :=
+  let f := fwdRowsD zero eps top dist N draw1
+  (Array.range N.length).map (fun u => secondRowD zero eps dist argsort (draw2 u) (f.row u))
 
 /-- `_search_graph.maximum(reverse_graph.tocsr())`, `setdiag(0)`, `eliminate_zeros()` -/
-def uniRows (zero eps top : P) (dist : Int → Int → P) (argsort : List P → List Nat)
-    (N : List (List (Ent P))) : Graph P :=
-  let s := sndRows zero eps top dist argsort N
+def uniRowsD (zero eps top : P) (dist : Int → Int → P) (argsort : List P → List Nat)
+    (N : List (List (Ent P))) (draw1 draw2 : Nat → Nat → Bool) : Graph P :=
+  let s := sndRowsD zero eps top dist argsort N draw1 draw2
   (Array.range N.length).map (fun u => dropDiag u (unionRow zero N.length (s.row u) (revRow N.length s u)))
 
 /-- weighted search graph before binarisation: `degree_prune(graph, m)`, `eliminate_zeros()` -/
-def finalRows (zero eps top : P) (dist : Int → Int → P) (argsort : List P → List Nat) (m : Nat)
-    (N : List (List (Ent P))) : Graph P :=
-  let g := uniRows zero eps top dist argsort N
+def finalRowsD (zero eps top : P) (dist : Int → Int → P) (argsort : List P → List Nat) (m : Nat)
+    (N : List (List (Ent P))) (draw1 draw2 : Nat → Nat → Bool) : Graph P :=
+  let g := uniRowsD zero eps top dist argsort N draw1 draw2
   (Array.range N.length).map (fun u => elimZeros zero (degreePrune zero m (g.row u)))
 
 /-- `(graph != 0)`: the edge set `(u, v)` of `_search_graph` in caller numbering (before the
-row/column permutation by `_vertex_order`). -/
+row/column permutation by `_vertex_order`), for the given outcomes of the generator tests. -/
+def searchGraphD (zero eps top : P) (dist : Int → Int → P) (argsort : List P → List Nat) (m : Nat)
+    (N : List (List (Ent P))) (draw1 draw2 : Nat → Nat → Bool) : List (Nat × Int) :=
+  let g := finalRowsD zero eps top dist argsort m N draw1 draw2
+  (List.range N.length).flatMap (fun u => (g.row u).map (fun e => (u, e.1)))
+
+/-! the instances for `diversify_prob = 1` (every test prunes) -/
+
+def fwdRows (zero eps top : P) (dist : Int → Int → P) (N : List (List (Ent P))) : Graph P :=
+  fwdRowsD zero eps top dist N (fun _ _ => true)
+
+def sndRows (zero eps top : P) (dist : Int → Int → P) (argsort : List P → List Nat)
+    (N : List (List (Ent P))) : Graph P :=
+  sndRowsD zero eps top dist argsort N (fun _ _ => true) (fun _ _ => true)
+
+def uniRows (zero eps top : P) (dist : Int → Int → P) (argsort : List P → List Nat)
+    (N : List (List (Ent P))) : Graph P :=
+  uniRowsD zero eps top dist argsort N (fun _ _ => true) (fun _ _ => true)
+
+def finalRows (zero eps top : P) (dist : Int → Int → P) (argsort : List P → List Nat) (m : Nat)
+    (N : List (List (Ent P))) : Graph P :=
+  finalRowsD zero eps top dist argsort m N (fun _ _ => true) (fun _ _ => true)
+
 def searchGraph (zero eps top : P) (dist : Int → Int → P) (argsort : List P → List Nat) (m : Nat)
     (N : List (List (Ent P))) : List (Nat × Int) :=
-  let g := finalRows zero eps top dist argsort m N
-  (List.range N.length).flatMap (fun u => (g.row u).map (fun e => (u, e.1)))
+  searchGraphD zero eps top dist argsort m N (fun _ _ => true) (fun _ _ => true)
 
 /-- a stable argsort (ties in storage order): one of the orders `np.argsort` may return -/
 def stableArgsort (lens : List P) : List Nat :=
   (isort (fun a b => decide (a.1 ≤ b.1)) lens.zipIdx).map (·.2)
+
+/-- the opposite tie rule (ties in *reverse* storage order): another ascending permutation that an
+unstable `np.argsort` may return -/
+def revStableArgsort (lens : List P) : List Nat :=
+  (isort (fun a b => decide (a.1 < b.1 ∨ (a.1 ≤ b.1 ∧ b.2 ≤ a.2))) lens.zipIdx).map (·.2)
 
 end Pynn.Div
